@@ -387,6 +387,28 @@ def extract_director():
 
 HOOKS.append(extract_director)
 
+def extract_input():
+    f = "glonax-input/src/main.rs"
+    b = body_of(f, r"let\s+mut\s+input_state\s*=\s*input::InputState\s*\{", "start-up InputState in glonax-input main")
+    def field(name, pat):
+        m = re.search(name + r"\s*:\s*" + pat + r"\s*,", b)
+        if not m:
+            raise ExtractError(f"glonax-input main.rs: start-up value of {name}")
+        return m
+    add("inputStartDriveLock", field("drive_lock", r"(true|false)").group(1), "glonax-input main: drive_lock at start-up", ty="Bool")
+    add("inputStartMotionLock", field("motion_lock", r"(true|false)").group(1), "glonax-input main: motion_lock at start-up", ty="Bool")
+    m = field("limit_motion", r"(!?)args\.full_motion")
+    add("inputStartLimitIsNotFullMotion", "true" if m.group(1) == "!" else "false", "glonax-input main: limit_motion = !args.full_motion", ty="Bool")
+    add("inputStartEngineRpm", num(field("engine_rpm", r"([0-9_]+)").group(1)), "glonax-input main: engine_rpm at start-up")
+    m = one(f, r"default_value_t\s*=\s*(true|false)\s*\)\]\s*fail_safe\s*:\s*bool", "fail_safe default")
+    add("inputFailSafeDefault", m.group(1), "glonax-input main: --fail-safe default", ty="Bool")
+    j = "glonax-input/src/joystick.rs"
+    for name in ["JS_EVENT_TYPE_BUTTON", "JS_EVENT_TYPE_AXIS", "JS_EVENT_INIT"]:
+        add(camel(name), const(j, name), "joystick.rs " + name)
+
+
+HOOKS.append(extract_input)
+
 
 def main():
     try:
